@@ -49,6 +49,12 @@ def _cmp_multi_index(a, b):
         else:
             # Both are Index, no decision, do not depend on count!
             pass
+    # A multiindex that is a prefix of the other sorts first (a tie
+    # here would make the ordering intransitive: [0] ~ [0,0] and
+    # [0] ~ [0,1] but [0,0] < [0,1])
+    x, y = len(a._indices), len(b._indices)
+    if x != y:
+        return -1 if x < y else 1
     # Failed to make a decision, return 0 by default
     # (this does not mean equality, it could be e.g.
     # [i,0] vs [j,0] because the counts of i,j cannot be used)
